@@ -133,7 +133,7 @@ class NodeNMAPPortScanAction(NodeNMAPAbstractAction, discriminator="node-nmap-po
         source_node: str
         target_protocol: Optional[Union[IPProtocol, List[IPProtocol]]] = None
         target_port: Optional[Union[Port, List[Port]]] = None
-        show: Optional[bool] = (False,)
+        show: Optional[bool] = False
 
     @classmethod
     def form_request(cls, config: ConfigSchema) -> RequestFormat:
@@ -162,7 +162,7 @@ class NodeNetworkServiceReconAction(NodeNMAPAbstractAction, discriminator="node-
 
         target_protocol: Optional[Union[IPProtocol, List[IPProtocol]]] = None
         target_port: Optional[Union[Port, List[Port]]] = None
-        show: Optional[bool] = (False,)
+        show: Optional[bool] = False
 
     @classmethod
     def form_request(cls, config: ConfigSchema) -> RequestFormat:
